@@ -312,6 +312,15 @@ def verdicts_vs_model(ctx, md, workdir, tag):
                     if a is not None:
                         lst.append(a)
             objs[c] = lst
+        # monitor (hypothesis audit G5): `huniq` of loader_applies_verdict / losers_never_loaded - the (assignment id,
+        # chromosome) pairs of the records one run saves are pairwise different (ids come from the per-chromosome counter,
+        # C06 `collect_ids_increasing`); a repeated pair means those theorems say nothing about this run
+        seen = collections.Counter((a.assignment_id, a.chr_id) for c in order for a in objs[c])
+        ctx.count("monitor:aid_chr_unique:records", sum(seen.values()))
+        rep = sorted(k for k, v in seen.items() if v > 1)
+        if rep:
+            ctx.disagree("monitor_aid_chr_unique", {"seed": md.seed, "high_memory": hm, "threads": th},
+                         "pairwise different (assignment id, chromosome)", {"repeated": rep[:10], "records": sum(seen.values())})
         vfiles = {c: C08flow.read_verdict_file(os.path.join(aux, "S.save_multimappers_" + c), c) for c in order}
         vobjs = [a for v in vfiles.values() for l in v.values() for a in l]
         rk = interned(objs, vobjs)
